@@ -125,11 +125,75 @@ let v6ext_parse_op kv =
      else "")
     (show_o v6ext_show (v6ext_parse bs))
 
+(* ---------------- MLD ---------------- *)
+let icmp6_proto = z_of_int 58
+let mld_show r = match r with
+  | MldQuery (c, a, s, q, qq, n, d) -> Printf.sprintf "Ok kind=query mrc=%s addr=%s s=%s qrv=%s qqic=%s nsrc=%s data=%s"
+      (sz c) (hex_of_bytes a) (b01 s) (sz q) (sz qq) (sz n) (show_bytes d)
+  | MldReport (n, d) -> Printf.sprintf "Ok kind=report nr=%s data=%s" (sz n) (show_bytes d)
+  | MldReportRecords rs -> Printf.sprintf "Ok kind=records n=%d" (List.length rs)
+let mldrec_show r = Printf.sprintf "Ok kind=rec type=%s aux=%s nsrc=%s addr=%s payload=%s"
+  (sz r.mldrec_type) (sz r.mldrec_aux_len) (sz r.mldrec_num_srcs) (hex_of_bytes r.mldrec_addr) (show_bytes r.mldrec_payload)
+let mld_repr kv = match get kv "kind" with
+  | "query" -> MldQuery (geti kv "mrc", getb kv "addr", getbool kv "s", geti kv "qrv", geti kv "qqic", geti kv "nsrc", getb kv "data")
+  | "report" -> MldReport (geti kv "nr", getb kv "data")
+  | _ ->
+    let s = get kv "recs" in
+    MldReportRecords (if s = "-" then [] else
+      List.map (fun item -> match String.split_on_char ':' item with
+        | [t; a; n; addr] -> { mldrec_type = zs t; mldrec_aux_len = zs a; mldrec_num_srcs = zs n;
+                               mldrec_addr = bytes_of_hex addr; mldrec_payload = [] }
+        | _ -> failwith "bad record") (String.split_on_char ',' s))
+let mld_is_mine bs = match bs with b :: _ -> (int_of_z b = 0x82 || int_of_z b = 0x8f) | [] -> false
+let mld_icmp kv bs =
+  if not (mld_is_mine bs) then "-" else
+  let src = getb kv "src" and dst = getb kv "dst" in
+  show_o mld_show (mld_icmp_parse (wb_pseudo_ok src dst icmp6_proto) (getbool kv "rx") bs)
+let mld_emit_op kv =
+  if get kv "kind" = "rec" then begin
+    let r = { mldrec_type = geti kv "type"; mldrec_aux_len = geti kv "aux"; mldrec_num_srcs = geti kv "nsrc";
+              mldrec_addr = getb kv "addr"; mldrec_payload = getb kv "payload" } in
+    match mldrec_emit r (getb kv "buf") with
+    | Ok bs -> Printf.sprintf "ret %s | %s | blen=%s" (show_bytes bs) (show_o mldrec_show (mldrec_parse (bs @ r.mldrec_payload))) (sz (mldrec_buffer_len r))
+    | _ -> Printf.sprintf "ret PANIC | - | blen=%s" (sz (mldrec_buffer_len r))
+  end else begin
+    let r = mld_repr kv in
+    let src = getb kv "src" and dst = getb kv "dst" in
+    let raw = mld_emit r (getb kv "buf") in
+    let res = mld_icmp_emit (wb_pseudo_fill src dst icmp6_proto) (getbool kv "tx") r (getb kv "buf") in
+    match res with
+    | Ok bs -> Printf.sprintf "raw %s ret %s | %s | icmp %s | blen=%s" (ob raw) (show_bytes bs)
+                 (show_o mld_show (mld_parse bs)) (mld_icmp kv bs) (sz (mld_buffer_len r))
+    | _ -> Printf.sprintf "raw %s ret PANIC | - | blen=%s" (ob raw) (sz (mld_buffer_len r))
+  end
+let mld_parse_op kv =
+  let bs = getb kv "bytes" in
+  if get kv "what" = "rec" then begin
+    let c = mldrec_check_len bs in
+    Printf.sprintf "chk %s%s" (chk c)
+      (if is_ok c then Printf.sprintf " acc type=%s aux=%s nsrc=%s addr=%s payload=%s parse %s"
+         (oz (mldrec_record_type bs)) (oz (mldrec_aux_data_len bs)) (oz (mldrec_num_srcs_ bs))
+         (ohex (mldrec_mcast_addr bs)) (ob (mldrec_payload_ bs)) (show_o mldrec_show (mldrec_parse bs))
+       else "")
+  end else begin
+    let c = icmp6h_check_len bs in
+    Printf.sprintf "chk %s%s parse %s | icmp %s" (chk c)
+      (if is_ok c && mld_is_mine bs then
+         (if int_of_z (List.hd bs) = 0x82 then
+            Printf.sprintf " acc mrc=%s addr=%s s=%s qrv=%s qqic=%s nsrc=%s payload=%s"
+              (oz (mld_max_resp_code bs)) (ohex (mld_mcast_addr bs)) (obool (mld_s_flag bs)) (oz (mld_qrv bs))
+              (oz (mld_qqic bs)) (oz (mld_num_srcs bs)) (ob (icmp6h_payload bs))
+          else Printf.sprintf " acc nr=%s payload=%s" (oz (mld_nr_mcast_addr_rcrds bs)) (ob (icmp6h_payload bs)))
+       else "")
+      (show_o mld_show (mld_parse bs)) (mld_icmp kv bs)
+  end
+
 (* ---------------- dispatch ---------------- *)
 let dispatch : (string * ((string * string) list -> string) * ((string * string) list -> string)) list = [
   ("igmp", igmp_emit_op, igmp_parse_op);
   ("v6frag", v6frag_emit_op, v6frag_parse_op);
   ("v6ext", v6ext_emit_op, v6ext_parse_op);
+  ("mld", mld_emit_op, mld_parse_op);
 ]
 
 let () =
